@@ -454,6 +454,14 @@ func serve(req *probeReq) *probeResp {
 		var hostileOK bool
 		maps, hostileOK = chainMaps(x, req.Chain)
 		resp.NOps += x.nOps
+		if req.Chain.Struct {
+			if hostileOK {
+				sk.Seen("ps_struct_accepted_kind", req.Chain.Kind)
+				resp.Accepted = append(resp.Accepted, runner.Hash64(ps0, []byte("ps-struct")))
+			} else {
+				sk.Seen("ps_struct_rejected_kind", req.Chain.Kind)
+			}
+		}
 		if req.Chain.Sys {
 			// chain-ue: the dependent units only run with a hostile set the library accepted
 			if !hostileOK {
